@@ -164,3 +164,47 @@ func zzH_c03_params() {
 	vAssert("infinity-not-on-curve", !c.IsOnCurve(new(big.Int), new(big.Int)))
 	vReach("end")
 }
+
+// H03-zero-x: the two curve points with x = 0, (0, +-sqrt(b)), are finite points: membership,
+// addition with another point (either order), doubling, equal-input addition, addition of the
+// two (opposite) points, and scalar multiplication agree with the reference group law.
+//
+//verif:property C03
+//verif:expect-reach end
+//verif:bound the points (0, sqrt b) and (0, p - sqrt b); second operand G or [2]G; scalars 1, 2, 3
+//verif:outside other points (zzH_c03_grouplaw_special)
+//verif:unwind 600
+func zzH_c03_zero_x() {
+	c := P256Sm2()
+	y0, _ := new(big.Int).SetString("fd4511e81736a60f07e88a83d6cf5a167fae6d1a9c9330e76e232e00f5cdc154", 16)
+	if vChoice("negative", 2) == 1 {
+		y0.Sub(sm2P256.P, y0)
+	}
+	x0 := new(big.Int)
+	vAssert("zero-x-point-on-curve", c.IsOnCurve(x0, y0))
+	qx, qy := sm2P256.Gx, sm2P256.Gy
+	if vChoice("second", 2) == 1 {
+		qx, qy = zzRefMul(big.NewInt(2))
+	}
+	wx, wy := zzRefAdd(x0, y0, qx, qy)
+	ax, ay := c.Add(x0, y0, qx, qy)
+	vAssert("zero-x-add-eq-reference", zzEqPt(ax, ay, wx, wy))
+	ax, ay = c.Add(qx, qy, x0, y0)
+	vAssert("zero-x-add-commutes", zzEqPt(ax, ay, wx, wy))
+	dx, dy := zzRefAdd(x0, y0, x0, y0)
+	gx, gy := c.Double(x0, y0)
+	vAssert("zero-x-double-eq-reference", zzEqPt(gx, gy, dx, dy) && (gx.Sign() != 0 || gy.Sign() != 0))
+	gx, gy = c.Add(x0, y0, x0, y0)
+	vAssert("zero-x-add-equal-is-doubling", zzEqPt(gx, gy, dx, dy))
+	ny := new(big.Int).Sub(sm2P256.P, y0)
+	ox, oy := c.Add(x0, y0, x0, ny)
+	vAssert("zero-x-add-opposite-is-infinity", ox.Sign() == 0 && oy.Sign() == 0)
+	k := 1 + vChoice("k", 3)
+	ex, ey := new(big.Int).Set(x0), new(big.Int).Set(y0)
+	for i := 1; i < k; i++ {
+		ex, ey = zzRefAdd(ex, ey, x0, y0)
+	}
+	mx, my := c.ScalarMult(x0, y0, []byte{byte(k)})
+	vAssert("zero-x-scalarmult-eq-reference", zzEqPt(mx, my, ex, ey))
+	vReach("end")
+}
